@@ -338,11 +338,30 @@ class C08(Prop):
         if obs.get("skip") or "err" in obs:
             return []
         reqs = []
-        for site, h, ps, _, _ in self._sites(case, obs):
+        needed = self._site_params()
+        for site, h, ps, out, _ in self._sites(case, obs):
             hd = " ".join(self._q(h[k]) for k in ("fch1", "foff", "tsamp", "tstart", "dm", "nchans", "nsamples", "nbits"))
+            # the translator names a free quantity after the LOCAL VARIABLE that holds it in the source; a renamed
+            # local must not look like a changed computation: every `len(<local>)` / `<x>_len` of a site is the
+            # length of the data the site returns
+            ps = dict(ps)
+            for nm in needed.get(site, []):
+                if nm not in ps and (nm.startswith("p_len_") or nm.endswith("_len")):
+                    ps[nm] = out["nsamples"]
             pp = " ".join(f"{k} {self._q(v)}" for k, v in ps.items())
             reqs.append(f"C08 site {site} {hd} {pp}")
         return reqs + ["C08 dropped"]
+
+    _needed = None
+
+    def _site_params(self):
+        """{site: [parameter names]} of the generated update functions (read from Generated/HeaderUpdates.lean)"""
+        if self._needed is None:
+            import re
+            txt = (common.LEAN / "SppModel" / "Generated" / "HeaderUpdates.lean").read_text()
+            self._needed = {m.group(1): re.findall(r"\((p_\w+) : Rat\)", m.group(2))
+                            for m in re.finditer(r"^def (\w+) \(h : Hdr\)((?: \(p_\w+ : Rat\))*) : Hdr", txt, re.M)}
+        return self._needed
 
     def model_compare(self, case, obs, answers):
         from fractions import Fraction
